@@ -50,7 +50,7 @@ def model_requests(o):
     else:
         runners = {"kind": "bounded", "n": 1}
     cfg = {"par": jobs > 1, "keepGoing": ("-k" in argv), "co0": bool(o["co0"]), "targets": o["targets"]}
-    reqs = [{"op": "init", "steps": steps, "cfg": cfg, "runners": runners, "n": jobs}]
+    reqs = [{"op": "init", "steps": steps, "cfg": cfg, "runners": runners, "n": (o["case"]["pipe0"] if o["sem"] == "job" else 1)}]
     expect = [None]
     first_stray = True
     for it in o["trace"]:
